@@ -261,7 +261,8 @@ def check_trace(o, events, n_workers, sjwd, kind, exc=None, busy_probe=None):
                     continue
                 job_ended[tid][1] += 1
                 if job_ended[tid][1] >= 3:
-                    V("end_notification", f"job_{job_ended[tid][0]}_but_status_never_reported", trial=tid, polls_since=job_ended[tid][1])
+                    V("end_notification", f"job_{job_ended[tid][0]}_but_status_never_reported" + ("" if sjwd else ":start_jobs_without_delay=False"),
+                      trial=tid, polls_since=job_ended[tid][1], polled=sorted(batch_status))
             for tid, res in pl["ret"]["results"]:
                 fetched.setdefault(tid, []).append(res)
         elif k == "s.on_trial_result.call":
